@@ -1,10 +1,27 @@
 """What MANIFEST.json claims, per property."""
-HOOK_COMMITS = ["77b2c42", "6128e10", "5f416f7", "71aa134", "8a2b985", "97ca607"]
-FIX_COMMITS = ["5da2d24", "9b55744", "1ceb643", "2d49340", "9d87992", "737054a", "6331ab3"]
+HOOK_COMMITS = ["77b2c42", "6128e10", "5f416f7", "71aa134", "8a2b985", "97ca607", "00b31e7"]
+FIX_COMMITS = ["5da2d24", "9b55744", "1ceb643", "2d49340", "9d87992", "737054a", "6331ab3", "02d90a3"]
 NOTES = ("Every check: TLC model-checks the module's design on small constants, then binds it to /repo's current working "
          "tree (rebuilt on every run with -tags verif). Exit 2 = infrastructure problem, never a verdict.")
 NOT_APPLICABLE = {}
 CHECKS = {
+    "C04": {
+        "text": "FzfRank.tla (Key from text/offsets/score/criteria, code-derived and 16-bit clamped; Less = keys then input index, "
+                "reversed under tac; Ranked = unique sorted permutation; input order for +s / empty / only-negated queries; "
+                "documented CriteriaOf/Sortable) and FzfMerger.tla (partition runs, cursors, lazily merged prefix, Get(i); pass-"
+                "through locate with partial first chunk; Partition) are model-checked exhaustively (order laws, uniqueness, sub-"
+                "list theorem; every partitioning x every probe sequence: Get(i)=Ranked[i], merged prefix, cursors in range; pass-"
+                "through and partition arithmetic). E: TLC-enumerated buildResult cases, TLC-simulated merger behaviours and "
+                "pass/partition cases replayed on buildResult / NewMerger / Merger.Get / PassMerger / sliceChunks. J: real "
+                "Snapshot+Matcher.scan with partitions forced to 1,2,3,7,32 and the real binary fzf -f on lists of 0..30 000 lines "
+                "under all 172 tiebreak settings x sort x tac x algo x GOMAXPROCS; Judge_Rank.tla recomputes each distinct line's "
+                "key from the measured (score, offsets) and requires stdout order = Result and the documented exit status.",
+        "design_ref": "DESIGN.md §6 C04, Appendix D (rank keys)",
+        "note": "Match decision, score and offsets per distinct line are measured on the real matcher by an in-package harness that "
+                "builds the pattern as core.go does (their correctness is C01-C03). Stdout identifies a line by its text, so order "
+                "among identical lines is checked only in-package. Trusted: TLC, the harness mapping.",
+        "technique": "TLA+ spec + TLC exhaustive MC; TLC-generated cases/behaviours replayed on real code; real executions judged by TLC",
+    },
     "C06": {
         "text": "FzfReader.tla (stream = record lengths + unterminated flag; Read(n) for every n the OS may return, SlabRotate, Eof; "
                 "items as stream byte ranges with slab regions lent) and FzfChunkList.tla (chunk heap, Push with header diversion "
